@@ -37,6 +37,15 @@ BUILT = {
  'C09': dict(cat='exploration', tech='sanitizer-style monitors on every exported name via an API table: byte snapshots of all reachable argument arrays and container structure, numpy.shares_memory between result and arguments, read-only trap pass; four memory layouts per call shape',
    text='All 107 exported names are executed in every documented argument combination of the table with C / Fortran / strided / shared-buffer layouts; arguments must be byte-identical afterwards, no returned floating-point array may share memory with an argument, and no in-place write may hit a read-only argument; the documented exceptions (in-place flag, info/cache, pass-through helpers) are modelled explicitly.',
    note='Undocumented parameters are not driven; getter (numba), the draft func_diff_matrix_apply(cheb) and als(use_stab) raise and are recorded as not drivable; index vectors handed back are recorded, not judged.', ref='§4 C09'),
+ 'C10': dict(cat='exploration', tech='history differential: bundles of probe calls executed in three fresh interpreters (solo / two different interleavings with other calls, global reseeding and draws, poisoned shared default dictionaries) with bitwise comparison of canonical result encodings; in-pass monitors on the global generator state, numpy.random entry points (caller attribution), generator objects and np.empty contents',
+   text='Every probe result must be bit-identical across the three histories; repeated calls agree; the global NumPy generator state is untouched and no legacy numpy.random function is called from teneva frames; a generator object passed as seed is the only source (clones end in the same state); results do not depend on np.empty contents (NaN / 1e300 fills).',
+   note='rand_custom without f (documented np.random.randn) is exempt; seed=None is random by design; Generator(s) is not required to reproduce seed=s.', ref='§4 C10'),
+ 'C13': dict(cat='exploration', tech='independent recomputation of the additive model (longdouble scatter means), auditing numpy Generator subclass recording every normal draw (noise > 0 checked exactly), add_many interposed to judge the order-2 summands before rounding, ridge normal equations for the functional variant',
+   text='f0 / f1 / pair terms of the class equal the recomputed conditional means; the TT evaluates to f0 + sum f1 (+ pair terms when r is large enough) at every index of the observed domain, exactly reconstructing the recorded noise; mode sizes and ranks as stated; anova_func coefficients satisfy the ridge normal equations and the interpolant equals the fitted expansions.',
+   note='Order-2 end-to-end tolerance contains the eigen-mode rounding floor of add_many/truncate (sqrt(eps)-like), derived in the module; data scales 1e-2..1e3 for order 2.', ref='§4 C13'),
+ 'C17': dict(cat='exploration', tech='exhaustive enumeration of the index maps against Python integer bit arithmetic for all (d,q) with q*d <= 10 (thorough 14); conversion monitors with own longdouble contraction and a Gram-matrix rounding model',
+   text='ind_tt_to_qtt / ind_qtt_to_tt are inverse little-endian bijections for single indices and batches; tt_to_qtt keeps the TT ranks at mode boundaries, respects the cap inside modes, meets e*sqrt(q)+floor per core, and the QTT entry at bits(i) equals the TT entry at i; non powers of two rejected.',
+   note='Not judged: cap binds; singular values inside the Gram rounding band (decided from numpy.linalg.svd of the input only).', ref='§4 C17'),
  'C01': dict(cat='exploration', tech='shadow-value runtime monitor: random expression programs evaluated by the real functions, every node and observer compared with a longdouble / exact-integer dense shadow',
    text='Oracle on executions of the real add/sub/mul/outer/copy and all evaluation routines over generated programs and TT families; held on the K programs listed in the evidence, never "verified".',
    note='Trusted: NumPy longdouble arithmetic as dense reference; tolerance 10(sum ranks+d)2^-52*absbound; exact Python ints for integer cores.', ref='§4 C01'),
